@@ -59,13 +59,26 @@ def dbl_parse(s: str) -> float:
     return math.ldexp(int(m), int(e)) if abs(int(m)) < 2 ** 53 else float(int(m)) * 2.0 ** int(e)
 
 
+def int_str(v):
+    """decimal digits of an int of any size (str() refuses more than 4300 digits; the limit is the implementation's to meet, not ours)"""
+    if abs(v) < 10 ** 4000:
+        return str(v)
+    sign, v = ("-" if v < 0 else ""), abs(v)
+    chunk = 10 ** 4000
+    parts = []
+    while v:
+        v, r = divmod(v, chunk)
+        parts.append(str(r).zfill(4000) if v else str(r))
+    return sign + "".join(reversed(parts))
+
+
 def enc_val(v):
     if v is None:
         return {"n": None}
     if isinstance(v, bool):
         return {"b": v}
     if isinstance(v, int):
-        return {"i": str(v)}
+        return {"i": int_str(v)}
     if isinstance(v, float):
         if v == 0 and math.copysign(1.0, v) < 0:
             return {"f": "0 0", "z": True}
